@@ -221,6 +221,9 @@ def run_slice(job: dict) -> dict:
                                          src_attr=sa, dst_attr=da, accepted=okc)
                     except ValueError as e2:
                         viol("world_start_rejected_but_consistent", desc=desc, type=typ, error=str(e2))
+                    except Exception as e3:  # noqa: BLE001  (a consistent description must not fail in any other way)
+                        viol("world_start_or_connect_raised_other", desc=desc, type=typ,
+                             error=f"{type(e3).__name__}: {str(e3)[:200]}")
                     finally:
                         world.shutdown()
             elif False:
@@ -279,6 +282,9 @@ def run_slice(job: dict) -> dict:
                                  got=[sorted(s_) for s_ in g2])
                         if stubs.SHARED_MODELS["M"] != dict(desc, public=True, params=[]):
                             C["shared_model_table_modified_by_mosaik"] += 1
+                    except Exception as e3:  # noqa: BLE001
+                        viol("world_start_or_connect_raised_other", desc=desc, type=t2, started_before_as=t1,
+                             shared_model_table=True, error=f"{type(e3).__name__}: {str(e3)[:200]}")
                     finally:
                         world.shutdown()
     # ---- world.start must reject what parse_attrs rejects (sample of rejected) -----------
@@ -311,6 +317,9 @@ def run_slice(job: dict) -> dict:
                     viol("world_start_accepted_inconsistent", desc=desc, type=typ)
                 except ValueError:
                     C["world_start_rejections_checked"] += 1
+                except Exception as e3:  # noqa: BLE001  (an inconsistent description is refused with ValueError)
+                    viol("world_start_or_connect_raised_other", desc=desc, type=typ,
+                         error=f"{type(e3).__name__}: {str(e3)[:200]}")
                 finally:
                     world.shutdown()
     # ---- set algebra ---------------------------------------------------------------------
@@ -353,13 +362,17 @@ def run_slice(job: dict) -> dict:
                         if (FRESH in mop(ma, mb)) != isinstance(r, OutSet):
                             viol("set_operator_wrong_kind", a=[ka, sorted(sa)], b=[kb, sorted(sb)], op=name)
                     C["set_expressions"] += 1
-                    eq = (A == B)
-                    if bool(eq) != (ma == mb):
-                        viol("set_equality_wrong", a=[ka, sorted(sa)], b=[kb, sorted(sb)], got=bool(eq))
-                    for x in sorted(full):
-                        C["set_membership_checks"] += 1
-                        if (x in A) != (x in ma):
-                            viol("set_membership_wrong", a=[ka, sorted(sa)], x=x)
+                    try:
+                        eq = (A == B)
+                        if bool(eq) != (ma == mb):
+                            viol("set_equality_wrong", a=[ka, sorted(sa)], b=[kb, sorted(sb)], got=bool(eq))
+                        for x in sorted(full):
+                            C["set_membership_checks"] += 1
+                            if (x in A) != (x in ma):
+                                viol("set_membership_wrong", a=[ka, sorted(sa)], x=x)
+                    except Exception as ex:  # noqa: BLE001
+                        viol("set_operator_raised", a=[ka, sorted(sa)], b=[kb, sorted(sb)], op="== / in",
+                             error=f"{type(ex).__name__}: {ex}")
     res["hashes"] = list(res["hashes"])
     res["counters"] = dict(C)
     return res
